@@ -383,4 +383,8 @@ def run(chk):
         (r"^emit_file::ActiveFile::write_event$", "assert:overflow:Add"): (2, "file size accounting; a file cannot exceed usize bytes before the size limit rolls it"),
     }, "the record writer and batch cursor have no unaccounted panic-capable site")
     common.arg_agreement_rule(chk, P, "C10", [("emit_file", None)], 5)
+    # a failed batch is written again only if the channel's retry loop hands the remainder back: the retry machinery of the channel is part of this property's mechanism
+    from . import batcher
+    batcher.bounded_retry(chk, P, "C10.batcher")
+    batcher.retry_remainder(chk, P, "C10.batcher")
     return chk
